@@ -288,6 +288,7 @@ package standard
 //@ requires s != nil && s.store != nil
 //@ ensures [records] result1 == nil ==> result0 != nil && (forall k [48]byte :: k in result0 ==> result0[k] != nil && allocated(result0[k]) && result0[k].HighestProposedSlot == wmPropL(bytes(k)) && result0[k].HighestAttestedSourceEpoch == wmAttS(bytes(k)) && result0[k].HighestAttestedTargetEpoch == wmAttT(bytes(k)))
 //@ ensures [absent] result1 == nil ==> (forall k [48]byte :: !(k in result0) ==> wmPropL(bytes(k)) == 0 - 1 && wmAttS(bytes(k)) == 0 - 1 && wmAttT(bytes(k)) == 0 - 1)
+//@ ensures [pubkey] result1 == nil ==> (forall k [48]byte :: k in result0 ==> len(result0[k].PubKey) == 48 && key48(result0[k].PubKey) == k)
 //@ hint [akey] forall k [48]byte :: bytes(withtag(k, 2)) == attKey(bytes(k))
 //@ hint [pkey] forall k [48]byte :: bytes(withtag(k, 3)) == propKey(bytes(k))
 //@ loop #1
@@ -296,6 +297,7 @@ package standard
 //@ invariant [tags] forall k [49]byte :: visited()[k] ==> k[48] == 2 || k[48] == 3
 //@ invariant [dom] forall p [48]byte :: (p in results) <==> (visited()[withtag(p, 2)] || visited()[withtag(p, 3)])
 //@ invariant [recs] forall p [48]byte :: p in results ==> results[p] != nil && fresh(results[p]) && allocated(results[p])
+//@ invariant [pubkey] forall p [48]byte :: p in results ==> len(results[p].PubKey) == 48 && allocated(results[p].PubKey) && fresh(results[p].PubKey) && key48(results[p].PubKey) == p
 //@ invariant [distinct] forall p [48]byte, q [48]byte :: p in results && q in results && p != q ==> results[p] != results[q]
 //@ invariant [att] forall p [48]byte :: p in results ==> results[p].HighestAttestedSourceEpoch == (if visited()[withtag(p, 2)] then decAttS(bytes(entries[withtag(p, 2)])) else 0 - 1) && results[p].HighestAttestedTargetEpoch == (if visited()[withtag(p, 2)] then decAttT(bytes(entries[withtag(p, 2)])) else 0 - 1)
 //@ invariant [prop] forall p [48]byte :: p in results ==> results[p].HighestProposedSlot == (if visited()[withtag(p, 3)] then decPropL(bytes(entries[withtag(p, 3)])) else 0 - 1)
